@@ -106,3 +106,27 @@ def near_rounding_boundary(x, digits=6, eps=Fr(1, 10 ** 9)):
     q = Fr(x) * 10 ** digits
     frac = q - (q.numerator // q.denominator)
     return abs(frac - Fr(1, 2)) * Fr(1, 10 ** digits) <= eps
+
+
+def batch_vs_alone(ctx, games, fields, label):
+    """observe_at 'run_games()[name][...]': the entries of a batch must be what running each game
+    alone through run_games gives (a failing or unsolvable game must not leak into its neighbours)"""
+    import copy
+    from crlib import repo, quiet, time_limit
+    cr = repo("conditionalrewards")
+    d = {f"g{i}": gen.desc(g) for i, g in enumerate(games)}
+    try:
+        with quiet(), time_limit(120.0):
+            res = cr.run_games(copy.deepcopy(d))
+            alone = [cr.run_games({f"g{i}": copy.deepcopy(d[f"g{i}"])}) for i in range(len(games))]
+    except BaseException as e:  # noqa
+        ctx.count("batch_vs_alone_skipped:" + type(e).__name__)
+        return
+    for i in range(len(games)):
+        for key in (f"g{i}", f"g{i}_no_prune"):
+            for fld in fields + ["msg"]:
+                if res[key].get(fld) != alone[i][key].get(fld):
+                    ctx.violation(label, {"games": [gen.desc(g) for g in games], "index": i},
+                                  {"entry": key, "field": fld, "in_batch": res[key].get(fld), "alone": alone[i][key].get(fld)})
+                    return
+    ctx.count("batch_vs_alone")
